@@ -138,6 +138,23 @@ def group_events(ob, orf, pw, spec):
     return ev, out, len(passes)
 
 
+def group_stop_event(ob, ngrouped, ng):
+    """The real grouping of a core stopped with an error: how many passes
+    were made and how many groups the last one gave (from the observed
+    cut-off decisions)."""
+    if ob is None:
+        return {'e': 'Crash', 'stage': 'input', 'exc': 'SystemExit',
+                'msg': 'input not accepted'}
+    per = max(1, ngrouped - 1)
+    npass = len(ob.calls) // per if ngrouped >= 2 else 0
+    lastn = 0
+    if npass:
+        lastn = 1 + sum(1 for c in ob.calls[(npass - 1) * per:npass * per]
+                        if c[3])
+    return {'e': 'GStop', 'npass': npass, 'lastn': lastn, 'ng': ng,
+            'itmax': ITMAX, 'whole': int(len(ob.calls) % per == 0)}
+
+
 def table(power_avg, C, K, n_pts=12, curve=0.0):
     """Layout of Orificing.run_parametric: P/F [MW/(kg/s)], power [W],
     flow [kg/s], dp [Pa], T_opt [K]."""
@@ -418,13 +435,17 @@ def apply_history(args):
             'bulk_coolant_temp': t_out, 'group_cutoff': spec.get('cutoff', 0.05),
             'group_cutoff_delta': spec.get('delta', 0.005)}
         path = cases.write_case(c, str(d))
+        ob = None
         try:
             inp = dassh.DASSH_Input(path)
             orf = dassh.Orificing(inp)
+            ob = Observer(dassh, orf)
             orf.group_by_power()
         except SystemExit:
-            ev.append({'e': 'Crash', 'stage': 'group', 'exc': 'SystemExit',
-                       'msg': 'grouping stopped with an error'})
+            # the adaptive sweep gave up: legal only after the iteration
+            # limit with the requested count not met
+            ev.append(group_stop_event(
+                ob, sum(1 for x in names if x in ('ta', 'tb')), spec['ng']))
             info['group'] = 'error'
             return {'label': label, 'ev': ev, 'info': info}
         info['group'] = 'ok'
@@ -523,15 +544,21 @@ def parametric_history(args):
             np.savetxt(str(d / '_parametric' / f'data_{nm}.csv'), tab,
                        delimiter=',')
             tabs.append(tab)
+        ob = None
         try:
             inp = dassh.DASSH_Input(path)
             orf = dassh.Orificing(inp)
             ob = Observer(dassh, orf)
+            stage = 'group'
             orf.group_by_power()
+            stage = 'parametric'
             orf.run_parametric()
         except SystemExit:
-            ev.append({'e': 'Crash', 'stage': 'group', 'exc': 'SystemExit',
-                       'msg': 'grouping stopped with an error'})
+            if stage == 'group':
+                ev.append(group_stop_event(ob, n, spec['ng']))
+            else:
+                ev.append({'e': 'Crash', 'stage': stage, 'exc': 'SystemExit',
+                           'msg': 'run_parametric stopped with an error'})
             info['group'] = 'error'
             return {'label': label, 'ev': ev, 'info': info}
         except BaseException as e:
